@@ -157,6 +157,26 @@ func init() {
 		}
 	})
 
+	// C08: pool recycling: goroutines racing Marshal/Unmarshal after calls that hand buffers back through
+	// the post-pass / error / indent paths, every result compared with the same call alone
+	registerGen("c08.pool", func(g *Gen) {
+		for i := 0; i < g.N; i++ {
+			ng := 4 + g.R.Intn(9)
+			iters := 100 + g.R.Intn(200)
+			if g.Tier == "thorough" && i%5 == 0 {
+				ng, iters = 16+g.R.Intn(17), 400
+			}
+			g.Emit("pool", itoa(g.R.Intn(1<<30)), itoa(ng), itoa(iters))
+		}
+	})
+
+	// the same, sized for the -race build (where every Marshal is shadowed by encoding/json inside sonic)
+	registerGen("c08.poolsmall", func(g *Gen) {
+		for i := 0; i < g.N; i++ {
+			g.Emit("pool", itoa(g.R.Intn(1<<30)), itoa(4+g.R.Intn(4)), itoa(30+g.R.Intn(50)))
+		}
+	})
+
 	// C09: one key set inserted in different orders into tables of different initial capacity
 	registerGen("c09.order", func(g *Gen) {
 		for i := 0; i < g.N; i++ {
@@ -206,11 +226,23 @@ func init() {
 		}
 		emit(pre, "samename", "-", 12)
 		pre = []string{"ptm:sameab", "ptm:sameba", "ptm:sameab:i1r3", "pt:sameout", "pt:sameout:i1r5", "ptm:sameout:r3",
-			"use:samename.a+ptm:sameab", "use:samename.b.u+ptm:sameba"}
+			"use:samename.a+ptm:sameab", "use:samename.b.u+ptm:sameba", "ptm:sameloc", "ptm:samelocr", "ptm:sameall", "ptm:sameall:i1r2"}
 		if thorough {
 			pre = append(pre, fill+"+ptm:sameab")
 		}
 		emit(pre, "samename", "same_name_two_pkgs", 12)
+		// ---- two distinct reflect.StructOf types with the same runtime hash and layout: every probe alone
+		// after the other type was used / pretouched first
+		collide := []string{"collide.x", "collide.y", "collide.xptr", "collide.yptr", "collide.x.u", "collide.y.u"}
+		for _, p := range collide {
+			fam := []string{"none", "pt:collide", "ptm:collider"}
+			for _, q := range collide {
+				if q != p && (thorough || g.R.Intn(2) == 0 || q[:9] != p[:9]) {
+					fam = append(fam, "use:"+q)
+				}
+			}
+			emit(fam, p, "-", 12)
+		}
 		// ---- pointer-receiver marshaler leaves: every probe alone, after other probes / pretouch
 		var names []string
 		for _, p := range histProbes {
